@@ -416,3 +416,201 @@ def gen_moves():
     open(os.path.join(GEN, 'MovesDef.v'), 'w').write('\n'.join(lines) + '\n')
     ok, log = compile_gen('MovesDef.v')
     return ('moves: generated movement lists + moves_are_neighbour_steps', ok, 'ok' if ok else log[-600:]), lists
+
+
+# ---------------------------------------------------------------- unit: the per-event body of the jump scan (C04)
+_COLS = {'atom index': 'g_atom', 'start site': 'g_s', 'destination site': 'g_d', 'start inner site': 'g_si',
+         'destination inner site': 'g_di', 'start time': 'g_t0', 'stop time': 'g_t1'}
+_VARS = ['event', 'fromevent', 'candidate_jump', 'jumps']
+
+
+class _JS:
+    """state-passing compiler for the whitelisted statement forms of the scan loop"""
+
+    def __init__(self):
+        self.n = 0
+
+    def fresh(self, base):
+        self.n += 1
+        return f'{base}{self.n}'
+
+    def tup(self):
+        return '(event, fromevent, candidate_jump, jumps)'
+
+    def field(self, node, known):
+        # X['col'] where X is `event` (a row) or an option variable known to be Some (bound name in `known`)
+        if not (isinstance(node, ast.Subscript) and isinstance(node.value, ast.Name) and isinstance(node.slice, ast.Constant)
+                and node.slice.value in _COLS):
+            raise Unsupported('field access ' + ast.dump(node)[:60])
+        v = node.value.id
+        if v == 'event':
+            return f'({_COLS[node.slice.value]} event)'
+        if v in known:
+            return f'({_COLS[node.slice.value]} {known[v]})'
+        raise Unsupported(f'read of {v}[...] where {v} is not known to be set')
+
+    def expr(self, node, known):
+        if isinstance(node, ast.Subscript):
+            return self.field(node, known)
+        if isinstance(node, ast.Name) and node.id == 'minimal_residence':
+            return 'mr'
+        if isinstance(node, ast.Constant) and isinstance(node.value, int):
+            return f'({node.value})' if node.value < 0 else str(node.value)
+        if isinstance(node, ast.UnaryOp) and isinstance(node.op, ast.USub):
+            if isinstance(node.operand, ast.Constant) and isinstance(node.operand.value, int):
+                return f'(-{node.operand.value})'
+            return f'(- {self.expr(node.operand, known)})'
+        if isinstance(node, ast.BinOp) and type(node.op) in (ast.Add, ast.Sub):
+            return f'({self.expr(node.left, known)} {"+" if isinstance(node.op, ast.Add) else "-"} {self.expr(node.right, known)})'
+        raise Unsupported('expression ' + ast.dump(node)[:60])
+
+    def cond(self, node, known):
+        if isinstance(node, ast.Compare) and len(node.ops) == 1:
+            a, b = self.expr(node.left, known), self.expr(node.comparators[0], known)
+            op = node.ops[0]
+            if isinstance(op, ast.Eq):
+                return f'({a} =? {b})'
+            if isinstance(op, ast.NotEq):
+                return f'(negb ({a} =? {b}))'
+            if isinstance(op, ast.GtE):
+                return f'({a} >=? {b})'
+        raise Unsupported('condition ' + ast.dump(node)[:60])
+
+    def block(self, stmts, known):
+        """returns a Gallina expression of the 4-tuple type"""
+        if not stmts:
+            return self.tup()
+        st, rest = stmts[0], stmts[1:]
+        if isinstance(st, ast.If):
+            t = st.test
+            # `X is not None`
+            if (isinstance(t, ast.Compare) and len(t.ops) == 1 and isinstance(t.ops[0], ast.IsNot) and isinstance(t.left, ast.Name)
+                    and t.left.id in ('fromevent', 'candidate_jump') and isinstance(t.comparators[0], ast.Constant) and t.comparators[0].value is None):
+                v = t.left.id
+                b = self.fresh('v')
+                body = self.block(st.body, {**known, v: b})
+                other = self.block(st.orelse, known)
+                head = f"match {v} with Some {b} => {body} | None => {other} end"
+            else:
+                c = self.cond(t, known)
+                head = f'if {c} then {self.block(st.body, known)} else {self.block(st.orelse, known)}'
+            # knowledge about option variables is dropped after a merge (fail-closed)
+            return f"let '{self.tup()} := {head} in {self.block(rest, {})}"
+        if isinstance(st, ast.Assign) and len(st.targets) == 1:
+            tg, val = st.targets[0], st.value
+            if isinstance(tg, ast.Name) and tg.id in ('fromevent', 'candidate_jump'):
+                if isinstance(val, ast.Constant) and val.value is None:
+                    k2 = {k: v for k, v in known.items() if k != tg.id}
+                    return f'let {tg.id} : option grow := None in {self.block(rest, k2)}'
+                if isinstance(val, ast.Name) and val.id == 'event':
+                    b = self.fresh('w')
+                    return f'let {b} := event in let {tg.id} := Some {b} in {self.block(rest, {**known, tg.id: "event"})}'
+                raise Unsupported('assignment to ' + tg.id)
+            if isinstance(tg, ast.Subscript) and isinstance(tg.value, ast.Name) and tg.value.id == 'event' and tg.slice.value in _COLS:
+                # event[col] = expr : functional field update.  Any option variable currently bound to this very row
+                # object (fromevent = event earlier in this iteration) would alias it; the code only writes after
+                # rebinding, which the value semantics below shares (checked by the tie).
+                new = self.expr(val, known)
+                k2 = {k: (v if v != 'event' else None) for k, v in known.items()}
+                if any(v is None for v in k2.values()):
+                    raise Unsupported('write to event while an alias of it is still read')
+                return f'let event := set_{_COLS[tg.slice.value]} event {new} in {self.block(rest, known)}'
+        if isinstance(st, ast.Expr) and isinstance(st.value, ast.Call) and isinstance(st.value.func, ast.Attribute) \
+                and st.value.func.attr == 'append' and isinstance(st.value.func.value, ast.Name) and st.value.func.value.id == 'jumps':
+            a = st.value.args[0]
+            if isinstance(a, ast.Name) and a.id == 'event':
+                return f'let jumps := jumps ++ [event] in {self.block(rest, known)}'
+            if isinstance(a, ast.Name) and a.id in known:
+                return f'let jumps := jumps ++ [{known[a.id]}] in {self.block(rest, known)}'
+            raise Unsupported('append of something not known to be set')
+        raise Unsupported('statement ' + ast.dump(st)[:80])
+
+
+def jump_step_unit():
+    f = _find_func(_parse('jumps.py'), None, '_generic_transitions_to_jumps')
+    loops = [n for n in ast.walk(f) if isinstance(n, ast.For) and isinstance(n.iter, ast.Call)
+             and getattr(n.iter.func, 'attr', '') == 'iterrows']
+    if len(loops) != 1:
+        raise Unsupported(f'{len(loops)} iterrows loops')
+    loop = loops[0]
+    if not (isinstance(loop.target, ast.Tuple) and len(loop.target.elts) == 2 and loop.target.elts[1].id == 'event'):
+        raise Unsupported('loop target')
+    # the final filter `jumps[jumps['start site'] != jumps['destination site']]` must still be there
+    src = ast.unparse(f)
+    if "jumps[jumps['start site'] != jumps['destination site']]" not in src:
+        raise Unsupported('final start != destination filter not found')
+    if "events['stop time'] = events['time'] + 1" not in src:
+        raise Unsupported("events['stop time'] = events['time'] + 1 not found")
+    return _JS().block(loop.body, {})
+
+
+def gen_jump_step():
+    os.makedirs(GEN, exist_ok=True)
+    try:
+        body = jump_step_unit()
+    except Unsupported as e:
+        return ('jumpstep', False, f'translator: unsupported {e}')
+    recs = ''.join(f'Definition set_{c} (r : grow) (x : Z) : grow := {{| ' + '; '.join(f'{d} := ' + ('x' if d == c else f'{d} r') for d in _COLS.values()) + ' |}.\n'
+                   for c in _COLS.values())
+    defs = f'''(* GENERATED from /repo/src/gemdat/jumps.py (_generic_transitions_to_jumps, body of the per-event loop) on every run -- do not edit *)
+From GV Require Import Base.Prelude Model.C03 Model.C04.
+Record grow := {{ {"; ".join(c + " : Z" for c in _COLS.values())} }}.
+{recs}
+Definition gstate := (option grow * option grow * list grow)%type.
+Definition gen_step (mr : Z) (s : gstate) (event : grow) : gstate :=
+  let '(fromevent, candidate_jump, jumps) := s in
+  let '(event, fromevent, candidate_jump, jumps) := {body} in
+  (fromevent, candidate_jump, jumps).
+
+(* an event row of the table: 'stop time' = 'time' + 1 *)
+Definition grow_of_row (r : row) : grow :=
+  {{| g_atom := r_atom r; g_s := r_s r; g_d := r_d r; g_si := r_si r; g_di := r_di r; g_t0 := r_t r; g_t1 := r_t r + 1 |}}.
+Definition jump_of_grow (g : grow) : jump :=
+  {{| j_atom := g_atom g; j_from := g_s g; j_to := g_d g; j_start := g_t0 g; j_stop := g_t1 g |}}.
+Definition gen_scan (mr : Z) (es : list row) : list jump :=
+  let '(_, _, js) := fold_left (gen_step mr) (map grow_of_row es) (None, None, []) in
+  map jump_of_grow (filter (fun g => negb (g_s g =? g_d g)) js).
+'''
+    open(os.path.join(GEN, 'JumpStepDef.v'), 'w').write(defs)
+    ok, log = compile_gen('JumpStepDef.v')
+    if not ok:
+        return ('jumpstep', False, 'generated definition does not compile: ' + log[-500:])
+    thm = '''(* GENERATED on every run: the generated loop body refines the hand-written model step on which the theorems are proved *)
+From GV Require Import Base.Prelude Model.C03 Model.C04 Gen.JumpStepDef.
+
+Definition abs_pend (g : grow) : pend := {| p_s := g_s g; p_d := g_d g; p_t := g_t0 g |}.
+Definition abs_cand (g : grow) : cand := {| c_s := g_s g; c_d := g_d g; c_t := g_t0 g; c_stop := g_t1 g |}.
+Definition abs_st (s : gstate) : st :=
+  let '(f, c, js) := s in {| fe := option_map abs_pend f; ca := option_map abs_cand c; out := map jump_of_grow js |}.
+
+(* a pending row keeps its own atom; the model takes the atom of an emitted jump from the triggering row, so the
+   refinement is stated for rows of one atom (the scan is run per atom) *)
+Definition one_atom (a : Z) (s : gstate) : Prop :=
+  let '(f, c, js) := s in
+  (forall g, f = Some g -> g_atom g = a) /\\ (forall g, c = Some g -> g_atom g = a).
+
+Ltac split_ifs :=
+  repeat (match goal with
+          | |- context [?x =? ?y] => let E := fresh "E" in destruct (x =? y) eqn:E
+          | |- context [?x >=? ?y] => let E := fresh "E" in destruct (x >=? y) eqn:E
+          end; cbn).
+
+Theorem gen_step_refines : forall mr a s r, one_atom a s -> r_atom r = a ->
+  abs_st (gen_step mr s (grow_of_row r)) = step mr (abs_st s) r /\\ one_atom a (gen_step mr s (grow_of_row r)).
+Proof.
+  intros mr a [[f c] js] r [Hf Hc] Ha.
+  destruct r as [ra rs rd rsi rdi rt]. cbn [r_atom] in Ha. subst a.
+  destruct f as [f|]; destruct c as [c|];
+    try (specialize (Hf f eq_refl)); try (specialize (Hc c eq_refl));
+    try (destruct f as [fa fs fd fsi fdi ft0 ft1]; cbn [g_atom] in Hf; subst fa);
+    try (destruct c as [ca cs cd csi cdi ct0 ct1]; cbn [g_atom] in Hc; subst ca);
+    unfold gen_step, step, abs_st, one_atom, grow_of_row, abs_pend, abs_cand, jump_of_grow,
+           set_g_atom, set_g_s, set_g_d, set_g_si, set_g_di, set_g_t0, set_g_t1;
+    cbn; split_ifs; cbn;
+    (split; [ rewrite ?map_app; cbn; try reflexivity; try congruence
+            | split; intros g Hg; try discriminate; inversion Hg; subst; cbn; congruence ]).
+Qed.
+'''
+    open(os.path.join(GEN, 'JumpStep.v'), 'w').write(thm)
+    ok, log = compile_gen('JumpStep.v', timeout=600)
+    return ('jumpstep: generated loop body + gen_step_refines (refines Model.C04.step)', ok, 'ok' if ok else log[-1500:])
